@@ -8,7 +8,7 @@
     (3) termination of HAP / APP is proved only on a grid whose bound is in the statement
         (m, n <= 3), by in-kernel evaluation of the model of reduce. *)
 From LC Require Import Spec.Encodings Spec.Confluence Spec.NorEval Model.Reduction Gen.Terms
-  Proofs.Sound Proofs.ReduceProps Proofs.Normalise Proofs.Convert Proofs.ChurchArith Proofs.Returns.
+  Proofs.Sound Proofs.ReduceProps Proofs.Normalise Proofs.Convert Proofs.ChurchArith Proofs.Returns Spec.Typed Proofs.EagerTyped.
 
 Theorem C13_unary : forall n,
   red (App lc_num_church_succ (church n)) (church (S n)) /\
@@ -113,6 +113,21 @@ Proof.
     apply (lazy_returns o); auto; first [apply church_nf | apply pair_nf; apply church_nf].
 Qed.
 
+(** the EAGER orders too, for ALL m, n, for the operations that are simply typable: a simply typed term is strongly
+    normalising (Spec/Typed.v: Tait-Girard reducibility), so APP and HAP - like every strategy - terminate on it, and
+    what they return is the normal form.  [full o] is o = NOR \/ o = HNO \/ o = APP \/ o = HAP.
+    (For the other operations termination of APP / HAP is established on the bounded grids of C13G.v only.) *)
+Theorem C13_eager_returns : forall o m n, full o ->
+  returns o (App lc_num_church_succ (church n)) (church (S n)) /\
+  returns o (App lc_num_church_pred (church n)) (church (pred n)) /\
+  returns o (App lc_num_church_is_zero (church n)) (bool_t (n =? 0)) /\
+  returns o (App lc_num_church_fac (church n)) (church (fact n)) /\
+  returns o (App (App lc_num_church_add (church m)) (church n)) (church (m + n)) /\
+  returns o (App (App lc_num_church_mul (church m)) (church n)) (church (m * n)).
+Proof. intros o m n F. apply church_typed_returns; auto. Qed.
+Theorem C13_typed_terms_strongly_normalising : forall G t A, has_type G t A -> sn t.
+Proof. exact typed_sn. Qed.
+
 Print Assumptions C13_unary.
 Print Assumptions C13_arithmetic.
 Print Assumptions C13_division.
@@ -122,3 +137,5 @@ Print Assumptions C13_hno_returns.
 Print Assumptions C13_any_order_sound.
 Print Assumptions C13_nor_add.
 Print Assumptions C13_reduce_returns.
+Print Assumptions C13_eager_returns.
+Print Assumptions C13_typed_terms_strongly_normalising.
